@@ -322,6 +322,14 @@ func TestC10(t *testing.T) {
 						runSeq([]ioOp{{Kind: "seek", Off: off, Whence: io.SeekStart}, {Kind: "read", N: n}})
 					}
 				}
+				// positional reads behind / ahead of a sequential cursor that has moved over the encrypted regions
+				for _, off := range offs {
+					for _, n := range []int{1, 2048, 2049} {
+						runSeq([]ioOp{{Kind: "read", N: c10Sectors * 2048}, {Kind: "readat", N: n, Off: off}})
+						runSeq([]ioOp{{Kind: "seek", Off: 0, Whence: io.SeekEnd}, {Kind: "readat", N: n, Off: off}, {Kind: "seek", Off: off, Whence: io.SeekStart}, {Kind: "read", N: n}})
+						runSeq([]ioOp{{Kind: "seek", Off: off + 4096, Whence: io.SeekStart}, {Kind: "read", N: 1}, {Kind: "readat", N: n, Off: off}})
+					}
+				}
 				// depth 2: sequential continuation at unaligned cursors, cursor independence of ReadAt, relative seeks
 				for _, n1 := range c10Lens {
 					for _, n2 := range c10Lens {
